@@ -256,7 +256,7 @@ impl InnerInMemory {
     }
 
     /// A name exists if it, or any name below it, owns records (RFC 4592 section 2.2.2)
-    fn name_exists(&self, name: &LowerName) -> bool {
+    pub(super) fn name_exists(&self, name: &LowerName) -> bool {
         self.records.keys().any(|key| name.zone_of(key.name()))
     }
 
